@@ -67,7 +67,13 @@ def new_properties(doc, rnd):
 def literal_property(doc, rnd):
     n = _fresh(doc, "EvolvedLiteralHolder")
     lit = {"kind": "literal", "value": {"properties": [{"name": "inner", "type": B("string")}, {"name": "depth", "type": B("uinteger"), "optional": True}]}}
+    lit2 = {"kind": "literal", "value": {"properties": [{"name": "firstValue", "type": B("string")}, {"name": "secondItem", "type": B("uinteger")},
+                                                       {"name": "thirdThing", "type": B("boolean"), "optional": True}]}}
+    lit3 = {"kind": "literal", "value": {"properties": [{"name": "alphaBeta", "type": R("Range")}, {"name": "gammaDelta", "type": B("string")}]}}
     doc["structures"].append({"name": n, "properties": [
+        # property names the rust plugin's literal naming ignores: the name falls back to the literal's own property names
+        {"name": "options", "type": lit2, "optional": True},
+        {"name": "result", "type": {"kind": "array", "element": lit3}, "optional": True},
         {"name": "detail", "type": lit},
         {"name": "details", "type": {"kind": "array", "element": copy.deepcopy(lit)}, "optional": True},
         {"name": "maybeDetail", "type": {"kind": "or", "items": [copy.deepcopy(lit), B("null")]}}]})
